@@ -2731,3 +2731,181 @@ func (c *Ctx) endsBothOrientations(rule string, funcs []*FuncInfo, clause string
 	}
 	return
 }
+
+// ---------------------------------------------------------------------------------------------
+// RLOCK-WRITE (C11): a method that takes only the read lock of its receiver (RLock, never Lock)
+// is run by several goroutines at once; it must not store into the receiver's fields nor into a
+// slice/map reached from them (directly or through a local alias such as `b := r.buckets[i]`).
+func (c *Ctx) rlockWrite(rule string, funcs []*FuncInfo) (n, nviol int) {
+	clause := "no data races; same results as the single-threaded computation"
+	for _, fi := range funcs {
+		if fi.Decl.Body == nil || fi.Decl.Recv == nil {
+			continue
+		}
+		info := fi.Pkg.TypesInfo
+		r := recvObj(info, fi.Decl)
+		if r == nil {
+			continue
+		}
+		rlock, wlock := false, false
+		for _, call := range callsIn(fi.Decl.Body, true) {
+			sel, ok := unparen(call.Fun).(*ast.SelectorExpr)
+			if !ok {
+				continue
+			}
+			// r.RLock() or r.mux.RLock()
+			base := unparen(sel.X)
+			if s2, ok := base.(*ast.SelectorExpr); ok {
+				base = unparen(s2.X)
+			}
+			if identObj(info, base) != r {
+				continue
+			}
+			switch sel.Sel.Name {
+			case "RLock":
+				rlock = true
+			case "Lock":
+				wlock = true
+			}
+		}
+		if !rlock || wlock {
+			continue
+		}
+		n++
+		key := funcName(fi.Obj) + "/read-locked"
+		// locals aliasing storage reached from the receiver
+		alias := map[types.Object]bool{}
+		fromRecv := func(e ast.Expr) bool {
+			found := false
+			ast.Inspect(e, func(m ast.Node) bool {
+				if id, ok := m.(*ast.Ident); ok {
+					o := identObj(info, id)
+					if o == r || alias[o] {
+						found = true
+					}
+				}
+				return !found
+			})
+			return found
+		}
+		refType := func(t types.Type) bool {
+			switch t.Underlying().(type) {
+			case *types.Slice, *types.Map, *types.Pointer:
+				return true
+			}
+			return false
+		}
+		for iter := 0; iter < 3; iter++ {
+			ast.Inspect(fi.Decl.Body, func(m ast.Node) bool {
+				switch x := m.(type) {
+				case *ast.AssignStmt:
+					if len(x.Lhs) == len(x.Rhs) {
+						for i, rh := range x.Rhs {
+							if o := identObj(info, x.Lhs[i]); o != nil && o != r && refType(o.Type()) && fromRecv(rh) {
+								alias[o] = true
+							}
+						}
+					}
+				case *ast.RangeStmt:
+					if x.Value != nil && fromRecv(x.X) {
+						if o := identObj(info, x.Value); o != nil && refType(o.Type()) {
+							alias[o] = true
+						}
+					}
+				}
+				return true
+			})
+		}
+		bad := token.NoPos
+		what := ""
+		ast.Inspect(fi.Decl.Body, func(m ast.Node) bool {
+			var lhs []ast.Expr
+			switch x := m.(type) {
+			case *ast.AssignStmt:
+				if x.Tok == token.DEFINE {
+					return true
+				}
+				lhs = x.Lhs
+			case *ast.IncDecStmt:
+				lhs = []ast.Expr{x.X}
+			default:
+				return true
+			}
+			for _, l := range lhs {
+				l = unparen(l)
+				// a store through a selector or an index (not a plain local variable)
+				switch l.(type) {
+				case *ast.SelectorExpr, *ast.IndexExpr, *ast.StarExpr:
+					if fromRecv(l) && !bad.IsValid() {
+						bad, what = l.Pos(), c.src(l)
+					}
+				}
+			}
+			return true
+		})
+		if bad.IsValid() {
+			nviol++
+			c.Violation(rule, key, bad, fmt.Sprintf("%s holds only the read lock (RLock) and stores into %s, which is reached from its receiver: goroutines running it concurrently write the same memory (data race; entries can be duplicated or lost)", funcName(fi.Obj), what)).Clause = clause
+		} else {
+			c.OK(rule, key, fi.Decl.Pos(), "holds the read lock and stores nothing reached from its receiver")
+		}
+	}
+	return
+}
+
+// ---------------------------------------------------------------------------------------------
+// COPYLOCK (C11): a struct that contains a sync.Mutex / RWMutex / WaitGroup by value must not be
+// copied: a method with a value receiver locks a private copy of the mutex (no exclusion at all, and
+// a copy taken while the original is locked blocks for ever).
+func (c *Ctx) copyLock(rule string) (n, nviol int) {
+	clause := "no data races; always terminate"
+	var holds func(t types.Type, depth int) bool
+	holds = func(t types.Type, depth int) bool {
+		if depth > 4 {
+			return false
+		}
+		if nt, ok := t.(*types.Named); ok && nt.Obj().Pkg() != nil && nt.Obj().Pkg().Path() == "sync" {
+			switch nt.Obj().Name() {
+			case "Mutex", "RWMutex", "WaitGroup", "Once", "Cond":
+				return true
+			}
+		}
+		if st, ok := t.Underlying().(*types.Struct); ok {
+			for i := 0; i < st.NumFields(); i++ {
+				if holds(st.Field(i).Type(), depth+1) {
+					return true
+				}
+			}
+		}
+		return false
+	}
+	for _, fi := range c.AllFuncs() {
+		sig := fi.Obj.Type().(*types.Signature)
+		check := func(v *types.Var, role string) {
+			if v == nil {
+				return
+			}
+			if _, isPtr := v.Type().(*types.Pointer); isPtr {
+				return
+			}
+			if !holds(v.Type(), 0) {
+				return
+			}
+			nviol++
+			c.Violation(rule, funcName(fi.Obj)+"/"+role, fi.Decl.Pos(), fmt.Sprintf("%s takes %s of type %s by value; the type contains a lock, so every call works on a private copy of it: the lock excludes nobody, and a copy taken while the original is held blocks for ever", funcName(fi.Obj), role, types.TypeString(v.Type(), func(p *types.Package) string { return p.Name() }))).Clause = clause
+		}
+		if sig.Recv() != nil {
+			if _, isPtr := sig.Recv().Type().(*types.Pointer); isPtr {
+				if holds(sig.Recv().Type().(*types.Pointer).Elem(), 0) {
+					n++
+				}
+			}
+			check(sig.Recv(), "its receiver")
+		}
+		for i := 0; i < sig.Params().Len(); i++ {
+			check(sig.Params().At(i), "parameter "+sig.Params().At(i).Name())
+		}
+	}
+	c.Trivial(rule, "scan", token.NoPos, fmt.Sprintf("%d methods on lock-holding types, all with pointer receivers", n))
+	return
+}
